@@ -67,6 +67,20 @@ Example C16_ex :
   = TOp (ss "+") false [TOp (ss "*") false [TVar (ss "a") 1; TConst (VInt 2)]; TConst (VInt 1)].
 Proof. vm_compute. repeat split. Qed.
 
+(* the whole pipeline in its generated pass order (optimizations_order is regenerated from the source) on same-kind groups
+   nested in one another: ONE node whose operands are the stable cost-ascending sort of their source order - flattening
+   must come before sorting, or a nested group would be ranked as a unit and spliced in afterwards *)
+Definition cfg_on : config := {| enabled := []; stateless := []; registered := []; costs := []; events := false |}.
+Definition vx := TVar (ss "x") 1. Definition vc := TVar (ss "c") 2. Definition vb := TVar (ss "b") 3. Definition vd := TVar (ss "d") 4.
+Definition noc (n : str) (a : list value) : res value := Err (EOther 0).
+Example C16_nested_groups :
+  optimize noc cfg_on (TOp (ss "and") false [TOp (ss "and") false [vx; vc]; vb]) = TOp (ss "and") false [vx; vc; vb] /\
+  optimize noc (set_cost (set_cost (set_cost cfg_on (ss "c") 1) (ss "b") 50) (ss "x") 100)
+    (TOp (ss "and") false [TOp (ss "and") false [vx; vc]; vb]) = TOp (ss "and") false [vc; vb; vx] /\
+  optimize noc (set_cost cfg_on (ss "x") 1000)
+    (TOp (ss "or") false [TOp (ss "or") false [vx; vc]; vb; vd]) = TOp (ss "or") false [vc; vb; vd; vx].
+Proof. vm_compute. repeat split. Qed.
+
 Print Assumptions C16_sort_stable.
 Print Assumptions C16_raise_never_moves_ahead.
 Print Assumptions C16_large_cost_last.
